@@ -12,7 +12,7 @@ import (
 func init() {
 	props["C19"] = func(r *Report) {
 		c19(r)
-		r.Guard("C19.R5", "every lock taken is released on every exit: the stream / handler locks", func() { lockPairRule(r, "marbl") })
+		r.Guard("C19.R5", "every lock taken is released on every exit: the stream / handler locks", func() { lockPairRule(r, "marbl"); goCaptureRule(r, "marbl") })
 	}
 	floors["C19"] = map[string]int{"C19.R1": 6, "C19.R2": 5, "C19.R3": 4, "C19.R4": 5, "C19.R5": 1}
 }
@@ -192,6 +192,15 @@ func c19(r *Report) {
 	})
 
 	r.Guard("C19.R2", "the body wrapper logs exactly what each Read returned: one data frame per Read, consecutive indices, terminal exactly at EOF", func() {
+		// data frames are produced by reads of the body and by nothing else: a frame
+		// sent from Close, a constructor or a helper matches no Read, so indices and
+		// the terminal mark no longer describe what the consumer read
+		for _, f := range w.Funcs("marbl") {
+			for _, c := range calls(f, "(*M/marbl.Stream).sendData") {
+				r.Decide("callgraph", "caller of sendData: "+site(f, c), fnName(f) == "(*M/marbl.bodyLogger).Read", "the body wrapper's Read", "a data frame is emitted outside bodyLogger.Read (in "+fnName(f)+"): it carries no bytes a consumer read, shifts the frame indices and can mark a body terminal that never reached end-of-file", c.Pos())
+			}
+		}
+
 		sds := plainCalls(rd, "(*M/marbl.Stream).sendData")
 		isSD := func(i ssa.Instruction) bool { _, ok := isCall(i, "(*M/marbl.Stream).sendData"); return ok }
 		n := countBefore(rd, isSD)
